@@ -218,9 +218,23 @@ pub fn run(ctx: &Ctx) -> Result<(), String> {
             ("second-document-unknown-key", format!("{}---\nfrobnicate: 1\n", b), vec![("frobnicate", json!(1))]),
             ("after-document-end-marker", format!("{}...\n---\nnum_workers: 3\n", b), vec![("num_workers", json!(3))]),
             ("key-written-twice", format!("{}batch_size: 8\nbatch_size: 9\n", b), vec![]),
+            // long (heavily commented) files: a key is effective wherever in the file it stands
+            ("keys-after-5-KiB-of-comments", format!("{}{}batch_size: 8\nfault_percentage: 25\n", b, "# a comment line that pads the configuration file a little more\n".repeat(80)), vec![("batch_size", json!(8)), ("fault_percentage", json!(25))]),
+            ("keys-after-70-KiB-of-comments", format!("{}{}batch_size: 8\nfault_percentage: 25\n", b, "# a comment line that pads the configuration file a little more\n".repeat(1100)), vec![("batch_size", json!(8)), ("fault_percentage", json!(25))]),
+            ("number-straddling-4096", { let mut y = b.clone(); while y.len() < 4096 - 13 { y.push_str("#\n"); } while y.len() < 4096 - 12 { y.push('#'); } if !y.ends_with('\n') { y.push('\n'); } format!("{}{}batch_size: 16\n", y, "#".repeat(4096usize.saturating_sub(y.len() + 13)) + "\n") }, vec![("batch_size", json!(16))]),
         ];
         // an unknown key makes start-up fail whatever is written as its value (nothing, null, a list,
         // a mapping, a boolean)
+        for (what, yaml) in [("out-of-range-after-5-KiB", format!("{}{}batch_size: 65\n", b, "# padding comment line, padding comment line, padding comment\n".repeat(90))), ("unknown-key-after-5-KiB", format!("{}{}frobnicate: 1\n", b, "# padding comment line, padding comment line, padding comment\n".repeat(90)))] {
+            let o = crate::proc::cfgprobe_raw(&yaml)?;
+            evals.fetch_add(1, Relaxed);
+            nontrivial.fetch_add(1, Relaxed);
+            let accepted = o["accepted"] == true;
+            *classes.lock().unwrap().entry(format!("file-structure/{}:{}", what, if accepted { "accepted" } else { "refused" })).or_insert(0) += 1;
+            if accepted {
+                ctx.violation("accepted-invalid-late-in-file", "file-structure", "File", json!({"kind":"probe-raw","case":what,"yaml_len":yaml.len(),"probe":o}));
+            }
+        }
         for (what, line) in [("unknown-key-empty-value", "bogus_setting:"), ("unknown-key-tilde", "bogus_setting: ~"), ("unknown-key-null", "bogus_setting: null"), ("unknown-key-list", "bogus_setting: [1, 2]"), ("unknown-key-mapping", "bogus_setting: {a: 1}"), ("unknown-key-boolean", "bogus_setting: true"), ("unknown-key-first", "")] {
             let yaml = if what == "unknown-key-first" { format!("bogus_setting:\n{}", b) } else { format!("{}{}\n", b, line) };
             let o = crate::proc::cfgprobe_raw(&yaml)?;
